@@ -326,7 +326,7 @@ def analyse_verdict(run, rule, model, fi, list_param, mapping_param, depth):
         err_terms.add(strip_sites(t))
         args = dict(t[3])
         ea = errfact.node.args
-        names = [x.arg for x in ea.posonlyargs + ea.args]
+        names = [x.arg for x in ea.posonlyargs + ea.args + ea.kwonlyargs]
         contract_arg = args.get(names[0]) if names else None
         mapping_arg = args.get(names[1]) if len(names) > 1 else None
         if contract_arg != target:
